@@ -240,6 +240,15 @@ class Facts:
     def body(self, path):
         return self.bodies.get(self.norm(path))
 
+    def type_info(self, ty):
+        """Type-graph node of a type given with or without its generic arguments (`Analysis`, `Analysis<'_>`)."""
+        base = self.norm(ty or '').split('<')[0].strip()
+        ti = self.types.get(ty) or self.types.get(base)
+        if ti is None:
+            hits = [v for k, v in self.types.items() if k.split('<')[0] == base and v.get('kind') == 'adt']
+            ti = hits[0] if len(hits) == 1 else None
+        return ti
+
     def body_of_fnconst(self, fc):
         """Workspace body denoted by an exported function constant (canonical path first)."""
         for k in ('resolved_canon', 'fn_canon'):
@@ -277,6 +286,12 @@ class Facts:
 
     def one(self, **kw):
         r = self.fn(**kw)
+        if len(r) > 1 and kw.get('trait') is None and kw.get('self_adt') is not None:
+            # `Type::name` without a trait means the inherent method; a trait impl that happens to have a method of the same
+            # name (added next to it) is another function
+            inh = [b for b in r if not b.impl_trait]
+            if len(inh) == 1:
+                return inh[0]
         if len(r) != 1:
             return None
         return r[0]
